@@ -32,15 +32,17 @@ type gState struct {
 }
 
 // allGoroutines snapshots the state of every goroutine of the process.
+var snapBuf = make([]byte, 1<<16) // reused: snapshots are only taken by the controller, under Global
+
 func allGoroutines() map[int64]gState {
-	buf := make([]byte, 1<<16)
+	var buf []byte
 	for {
-		n := runtime.Stack(buf, true)
-		if n < len(buf) {
-			buf = buf[:n]
+		n := runtime.Stack(snapBuf, true)
+		if n < len(snapBuf) {
+			buf = snapBuf[:n]
 			break
 		}
-		buf = make([]byte, 2*len(buf))
+		snapBuf = make([]byte, 2*len(snapBuf))
 	}
 	out := map[int64]gState{}
 	for _, blk := range strings.Split(string(buf), "\n\n") {
